@@ -36,7 +36,7 @@ def run_shard(spec, acc):
             acc.count('stopped_on_time_budget')
             break
         cfg = sesswl.gen_cfg(rng, alpha_kinds=('fixed',), universe_kinds=('static',),
-                             max_days=60 if spec['tier'] == 'quick' else 250, expensive=True)
+                             max_days=60 if spec['tier'] == 'quick' else 250, expensive=True, nan_cells='inner')
         tr, ref = sesswl.run_case(cfg, acc, PROP)
         acc.evaluations += 1
         acc.count('sessions:%s' % cfg['rebalance'])
